@@ -22,7 +22,7 @@ from vlib import core
 FAMILIES = {
     #            family  L  workers
     "quick": [("all", 3)],
-    "thorough": [("rte5", 5), ("rte", 4), ("rte2", 4), ("rex", 4), ("rts", 9), ("rtsbig", 4), ("utf8", 4), ("wa", 4), ("wf", 4)],
+    "thorough": [("rte5", 5), ("rte", 4), ("rte2", 4), ("rex", 4), ("rts", 9), ("rtsbig", 4), ("utf8", 4), ("eintr", 4), ("wa", 4), ("wf", 4)],
 }
 ID_FAMILIES = {"rte", "rte2", "rex", "wa", "wf"}
 INVARIANTS = "Correct NoBad CarrySound ProbeOnlyExactFit NotStuck Emit"
@@ -162,10 +162,12 @@ def fmt_cases():
     nested write!; literal-only format strings): the driver fills in data / pieces from core's own formatting (format!)."""
     A = lambda k: {"t": "a", "k": k}
     E, Z = {"t": "eintr", "k": 0}, {"t": "zero", "k": 0}
+    EK = lambda k: {"t": "eintr", "k": k}
     R = lambda e: {"t": "err", "k": e}
     scripts = [[], [A(1)] * 8, [A(2)] * 6, [A(3)] * 5, [E, A(1), E, A(2)], [R(5)], [A(1), R(5)], [A(2), A(1), R(11)],
                [Z], [A(1), Z], [A(1), A(1), A(1), R(5)], [E, E, E], [A(1), A(2), A(1), A(2), A(1), R(28)],
-               [E], [E, R(5)], [E, Z], [A(1), E, A(1)], [A(1), E, R(5)], [Z, R(5)], [E, A(100)]]
+               [E], [E, R(5)], [E, Z], [A(1), E, A(1)], [A(1), E, R(5)], [Z, R(5)], [E, A(100)],
+               [EK(130), A(2), EK(300), A(1), EK(1000)], [A(1), EK(130), R(5)], [EK(1000)]]
     return [{"op": "write_fmt", "script": sc, "data": [], "init": [], "cap0": 0, "n": 0, "pieces": [], "ff": 0, "fmtid": i}
             for i in range(NFMT) for sc in scripts]
 
@@ -204,7 +206,7 @@ def random_cases(rng, count):
                 if x < 0.75:
                     script.append({"t": "c", "k": rng.choice([1, 2, 3, 7, 8, 15, 16, 31, 32, 33, 63, 64, 65, 100, 127, 128, 129, 300])})
                 elif x < 0.93:
-                    script.append({"t": "eintr", "k": 0})
+                    script.append({"t": "eintr", "k": rng.choice([0, 0, 0, 2, 129, 130, 300])})
                 elif x < 0.97:
                     script.append({"t": "eof", "k": 0})
                 else:
@@ -243,7 +245,7 @@ def random_cases(rng, count):
                 if x < 0.75:
                     script.append({"t": "a", "k": rng.choice([1, 2, 3, 7, 31, 32, 33, 64, 100, 1000])})
                 elif x < 0.92:
-                    script.append({"t": "eintr", "k": 0})
+                    script.append({"t": "eintr", "k": rng.choice([0, 0, 0, 2, 129, 130, 300])})
                 elif x < 0.96:
                     script.append({"t": "zero", "k": 0})
                 else:
@@ -399,7 +401,7 @@ def classify(c, o, models):
 
 
 def script_str(s):
-    return " ".join((i["t"] + (str(i["k"]) if i["t"] in ("c", "a", "err") else "")) for i in s)
+    return " ".join((i["t"] + (str(i["k"]) if i["t"] in ("c", "a", "err") else ("x%d" % i["k"] if i["t"] == "eintr" and i["k"] > 1 else ""))) for i in s)
 
 
 def nontrivial(c):
